@@ -1,4 +1,7 @@
 import PicoProofs.Tie
+import PicoProofs.GoTieApi
+import PicoProofs.GoTieEncProg
+import PicoProofs.GoTieCoverage
 /-
 C16 — Concurrent encoding and decoding are race-free (PARTIAL: the Go memory model, the compiler
 and the standard library are outside the model).
@@ -56,6 +59,39 @@ theorem C16_no_shared_mutable_state :
 theorem C16_arguments_read_only :
     Gen.paramStores = Tie.expectedParamStores ∧ Gen.copyCalls = Tie.expectedCopyCalls :=
   Tie.stores_are_the_modelled_ones
+
+/-- one `picobuf.Unmarshal(data, &m)` of thread-private message `m` on the SHARED input `data`, run
+through the translated Go source. That this is a function of `(data, m)` and nothing else is not an
+assumption: the translator emits a closed Lean term per Go function and rejects any identifier that
+is not a parameter, a local or a translated function — a package-level variable, a pool or a cache
+in decoder.go / message.go / wire.go would make the function untranslatable (and the list of
+functions not covered by any translation is pinned by `GoTie.untranslated_expected`). -/
+def unmarshalStep (S : Schema) (id : Nat) : Nat → Bytes → Val → Val := fun _ data m =>
+  match GoTie.srcUnmarshal S id data m with
+  | .ok (m', _) => m'
+  | _ => m
+
+/-- any number of goroutines unmarshalling the same input into their own messages, under every
+interleaving: each obtains exactly its sequential result -/
+theorem C16_source_concurrent_unmarshal (S : Schema) (id : Nat) (data : Bytes) (sched : List Nat)
+    (st : Nat → Val) (i : Nat) :
+    run (unmarshalStep S id) data sched st i = alone (unmarshalStep S id) data i sched (st i) :=
+  C16_schedule_independent _ _ _ _ _
+
+/-- the same for encoders: each goroutine runs an encoder program (`GoTie.E.SOp`, through the
+translated encoder.go) on its own buffer; the shared store is the program (the message being
+marshalled is only read) -/
+def marshalStep (oracle : Nat → Bytes) : Nat → List GoTie.E.SOp → Option EncLow.Buf → Option EncLow.Buf := fun _ prog b =>
+  match b with
+  | none => none
+  | some b => match GoTie.E.srcOps oracle prog b with
+    | .ok b' => some b'
+    | _ => none
+
+theorem C16_source_concurrent_marshal (oracle : Nat → Bytes) (prog : List GoTie.E.SOp) (sched : List Nat)
+    (st : Nat → Option EncLow.Buf) (i : Nat) :
+    run (marshalStep oracle) prog sched st i = alone (marshalStep oracle) prog i sched (st i) :=
+  C16_schedule_independent _ _ _ _ _
 
 example : run (fun _ (sh : Nat) (s : Nat) => s + sh) 3 [0, 1, 0, 2, 1, 0] (fun _ => 0) 0 = 9 := by decide
 
